@@ -185,8 +185,9 @@ class Summariser:
             q = self._fork(p)
             v = _split_walrus(s.value, q.env)
             tgts = s.targets if isinstance(s, ast.Assign) else [s.target]
-            if not norm.is_pure(s.value, _PURE):
+            if not norm.is_pure(s.value, _PURE) and all(isinstance(t, (ast.Name, ast.Tuple, ast.List)) for t in tgts):
                 q.effects.append(ast.copy_location(ast.Expr(copy.deepcopy(v)), s))
+                _freeze(q.env, s)
             for t in tgts:
                 self._bind(t, v, q, s)
             nxt(q)
@@ -206,9 +207,20 @@ class Summariser:
             return
         if isinstance(s, ast.Expr):
             q = self._fork(p)
+            # a list being built through a local name: x = [..]; x.append(e) / x.extend(es)
+            c = s.value
+            if isinstance(c, ast.Call) and isinstance(c.func, ast.Attribute) and isinstance(c.func.value, ast.Name) and c.func.attr in ("append", "extend") \
+                    and isinstance(q.env.get(c.func.value.id), ast.List) and len(c.args) == 1 and not c.keywords:
+                a = _split_walrus(c.args[0], q.env)
+                cur = q.env[c.func.value.id]
+                new_elt = a if c.func.attr == "append" else ast.Starred(value=a, ctx=ast.Load())
+                q.env[c.func.value.id] = ast.List(elts=list(cur.elts) + [new_elt], ctx=ast.Load())
+                nxt(q)
+                return
             v = _split_walrus(s.value, q.env)
             if not (isinstance(v, ast.Constant)):
                 q.effects.append(ast.copy_location(ast.Expr(v), s))
+                _freeze(q.env, s)
             nxt(q)
             return
         if isinstance(s, ast.Assert):
@@ -219,6 +231,7 @@ class Summariser:
         if isinstance(s, ast.Delete):
             q = self._fork(p)
             q.effects.append(ast.copy_location(ast.Delete(targets=[_subst(t, q.env) for t in s.targets]), s))
+            _freeze(q.env, s)
             nxt(q)
             return
         if isinstance(s, (ast.For, ast.While)):
@@ -303,6 +316,7 @@ class Summariser:
             return
         # attribute / subscript store: an effect
         q.effects.append(ast.copy_location(ast.Assign(targets=[_subst(t, q.env)], value=copy.deepcopy(v)), s))
+        _freeze(q.env, s)
 
 
 class _Pure:
@@ -326,6 +340,59 @@ def _canon_neg(e):
     return None
 
 
+def _freeze(env: dict, stmt: ast.AST) -> None:
+    """after an effect that mutates a container / attribute, bindings computed from it denote the value *before* the
+    effect: wrap them in old_(..) so that they are not confused with the same expression evaluated afterwards.
+    `stmt` is the ORIGINAL statement (calls that only appear through substituted temporaries are not new effects);
+    the mutated bases are mapped through the current bindings."""
+    attrs, bases = set(), set()
+
+    def base(e):
+        return u(_subst(e, env))
+    for n in ast.walk(stmt):
+        if isinstance(n, ast.Attribute) and isinstance(n.ctx, (ast.Store, ast.Del)):
+            attrs.add(n.attr)
+        if isinstance(n, ast.Subscript) and isinstance(n.ctx, (ast.Store, ast.Del)):
+            bases.add(base(n.value))
+        if isinstance(n, ast.AugAssign):
+            bases.add(base(n.target))
+        if isinstance(n, ast.Call) and isinstance(n.func, ast.Attribute) and n.func.attr not in norm.PURE_METHODS and not n.func.attr[:1].isupper():
+            bases.add(base(n.func.value))
+    bases -= {"self", "cls"}
+    if not attrs and not bases:
+        return
+    for k, v in list(env.items()):
+        if isinstance(v, ast.Call) and u(v.func) == "old_":
+            continue
+        if norm.is_reference(v) and not any(isinstance(n, ast.Subscript) for n in ast.walk(v)) and not any(isinstance(n, ast.Attribute) and n.attr in attrs for n in ast.walk(v)):
+            continue            # an alias keeps denoting the same object
+        hit = False
+        for n in ast.walk(v):
+            if isinstance(n, ast.Attribute) and n.attr in attrs:
+                hit = True
+            if isinstance(n, (ast.Attribute, ast.Name, ast.Subscript)) and u(n) in bases:
+                hit = True
+            if hit:
+                break
+        if hit:
+            env[k] = ast.Call(func=ast.Name(id="old_", ctx=ast.Load()), args=[v], keywords=[])
+
+
+def _const_truth(t):
+    """truth value of a test on constants (`None is not None`, `1 == 1`), else None"""
+    if isinstance(t, ast.Compare) and len(t.ops) == 1 and isinstance(t.left, ast.Constant) and isinstance(t.comparators[0], ast.Constant):
+        a, b, op = t.left.value, t.comparators[0].value, t.ops[0]
+        if isinstance(op, ast.Is):
+            return a is b
+        if isinstance(op, ast.IsNot):
+            return a is not b
+        if isinstance(op, ast.Eq):
+            return a == b
+    if isinstance(t, ast.Constant) and not isinstance(t.value, str):
+        return bool(t.value)
+    return None
+
+
 def _isinstance_parts(t):
     if isinstance(t, ast.Call) and u(t.func) == "isinstance" and len(t.args) == 2:
         def flat(e):
@@ -340,6 +407,9 @@ def _isinstance_parts(t):
 
 def _feasible(tests, t, taken):
     """False: contradicts an earlier pure test on the path; 'known': already established; True otherwise"""
+    ct = _const_truth(t)
+    if ct is not None:
+        return "known" if ct == taken else False
     if not norm.is_pure(t, _PURE):
         return True
     txt = u(t)
